@@ -193,6 +193,19 @@ def _p_radical(m):
         a.is_radical = not a.is_radical
 
 
+def _p_cis_trans_2d(m):
+    m.calculate_cis_trans_from_2d()
+
+
+def _p_add_wedge(m):
+    n = next(iter(m.stereogenic_tetrahedrons))
+    m.add_wedge(n, next(iter(m._bonds[n])), 1)
+
+
+def _p_clean_stereo(m):
+    m.clean_stereo()
+
+
 def _p_delete_atom(m):
     m.delete_atom(max(m))
 
@@ -202,9 +215,10 @@ def _p_remap(m):
 
 
 PERTURB = [('move_x', _p_move_x), ('move_y', _p_move_y), ('set_xy', _p_set_xy), ('clean2d', _p_clean2d),
-           ('reaction_fix_positions', _p_fix_positions), ('name', _p_name), ('meta', _p_meta),
+           ('reaction_fix_positions', _p_fix_positions), ('cis_trans_from_2d', _p_cis_trans_2d), ('add_wedge', _p_add_wedge),
+           ('name', _p_name), ('meta', _p_meta),
            ('txn_isotope', _p_isotope), ('txn_charge', _p_charge), ('txn_radical', _p_radical),
-           ('add_atom', _add_atom), ('add_ring_bond', _add_ring_bond), ('delete_bond', _del_first_bond),
+           ('clean_stereo', _p_clean_stereo), ('add_atom', _add_atom), ('add_ring_bond', _add_ring_bond), ('delete_bond', _del_first_bond),
            ('delete_atom', _p_delete_atom), ('remap', _p_remap), ('move_x_again', _p_move_x)]
 
 
